@@ -205,9 +205,9 @@ class DuplicatingGraph:
         # call tuple to ensure iteration is completed
         # before information gets deleted / mutated
         for node in tuple(self):
+            # (the original tensors still hold their own view-information: it must
+            # not be rewritten here, or a failed in-place operation leaves a trace)
             reroute_ops_through(target=node.tensor, source=node.placeholder)
-            if node.placeholder._base is not None:
-                node.tensor._base = self.base.tensor
 
 
 class UnView(Operation):
